@@ -663,4 +663,8 @@ def run(ck):
     # (cache rule of C13)
     from .c13 import rule_cache
     ck.attempt(rule_cache, rid="C07.R10")
+    # "feasible for the network": same default tolerances on both sides (sibling-defaults rule of C06; reports under its C06 ids)
+    from .c06 import rule_defaults
+    ck.attempt(rule_defaults)
+
 
